@@ -50,13 +50,13 @@ def nal_body(rng, n):
     return bytes(out)
 
 
-def avc_nal(rng, typ, n, nri=None):
+def avc_nal(rng, typ, n, nri=None, f=0):
     nri = (0 if typ in (6, 9, 12) else rng.choice([1, 2, 3])) if nri is None else nri
-    return bytes([(nri << 5) | typ]) + nal_body(rng, max(0, n - 1))
+    return bytes([(f << 7) | (nri << 5) | typ]) + nal_body(rng, max(0, n - 1))
 
 
-def hevc_nal(rng, typ, n, tid=1, layer=0):
-    return bytes([(typ << 1) | (layer >> 5), ((layer & 31) << 3) | tid]) + nal_body(rng, max(0, n - 2))
+def hevc_nal(rng, typ, n, tid=1, layer=0, f=0):
+    return bytes([(f << 7) | (typ << 1) | (layer >> 5), ((layer & 31) << 3) | tid]) + nal_body(rng, max(0, n - 2))
 
 
 def nal_type(hevc, nal):
@@ -88,7 +88,8 @@ def param_sets(rng, hevc):
 AAC_RATES = [96000, 88200, 64000, 48000, 44100, 32000, 24000, 22050, 16000, 12000, 11025, 8000]
 
 
-def make_es(rng, vcodec, acodec, arate, nv, gop, sizes, aud, inband, sdp_params, extras, change_at=None, vrate=90000, fps_ticks=3600, na=None):
+def make_es(rng, vcodec, acodec, arate, nv, gop, sizes, aud, inband, sdp_params, extras, change_at=None, vrate=90000, fps_ticks=3600, na=None,
+            bf=False, vts0=None, tsbits=32):
     """returns dict(video=[frame], audio=[frame], params=..., asc=...).  video frame = dict(ts, nals, params_in_force),
     ts in clock ticks (exact), audio frame = dict(ts, data)."""
     hevc = vcodec == "h265"
@@ -96,6 +97,19 @@ def make_es(rng, vcodec, acodec, arate, nv, gop, sizes, aud, inband, sdp_params,
     ps = param_sets(rng, hevc) if vcodec != "none" else None
     es["sdp_params"] = ps if (sdp_params and ps) else None
     vts = rng.choice([0, 90000, 123456789, 3000000000])
+    if vts0 is not None:
+        vts = vts0
+    layers = hevc and "layers" in extras
+
+    def hn(typ, n):
+        # nuh_layer_id 0, 1, 31, 32, 63 (bit 0 of the first header byte is its top bit), nuh_temporal_id_plus1 1..7
+        # (and, now and then, the forbidden_zero_bit set: a unit the sender marks as damaged is still forwarded as it is)
+        if layers:
+            return hevc_nal(rng, typ, n, tid=rng.randrange(1, 8), layer=rng.choice([0, 1, 31, 32, 63, 32, 63]), f=int(rng.random() < 0.2))
+        return hevc_nal(rng, typ, n)
+
+    def an(typ, n):
+        return avc_nal(rng, typ, n, f=int(rng.random() < 0.3)) if "fbit" in extras else avc_nal(rng, typ, n)
     if vcodec != "none":
         for k in range(nv):
             key = k % gop == 0
@@ -103,21 +117,35 @@ def make_es(rng, vcodec, acodec, arate, nv, gop, sizes, aud, inband, sdp_params,
                 ps = param_sets(rng, hevc)
             nals = []
             if aud:
-                nals.append(hevc_nal(rng, 35, 3) if hevc else avc_nal(rng, 9, 2))
+                nals.append(hn(35, 3) if hevc else avc_nal(rng, 9, 2))
             if key and inband:
                 nals += ps
             if "sei" in extras:
-                nals.append(hevc_nal(rng, 39, rng.choice([5, 20])) if hevc else avc_nal(rng, 6, rng.choice([5, 20])))
+                nals.append(hn(39, rng.choice([5, 20])) if hevc else avc_nal(rng, 6, rng.choice([5, 20])))
             nslices = rng.choice([1, 1, 2, 3]) if "slices" in extras else 1
             for _ in range(nslices):
                 n = rng.choice(sizes)
                 if hevc:
-                    nals.append(hevc_nal(rng, rng.choice([19, 20, 21]) if key else rng.choice([0, 1]), n))
+                    nals.append(hn(rng.choice([19, 20, 21]) if key else rng.choice([0, 1]), n))
                 else:
-                    nals.append(avc_nal(rng, 5 if key else 1, n))
+                    nals.append(an(5 if key else 1, n))
             if "filler" in extras:
-                nals.append(hevc_nal(rng, 38, 6) if hevc else avc_nal(rng, 12, 6))
-            es["video"].append(dict(ts=(vts + k * fps_ticks) % (1 << 32), nals=nals, key=key, params=list(ps)))
+                nals.append(hn(38, 6) if hevc else avc_nal(rng, 12, 6))
+            es["video"].append(dict(ts=(vts + k * fps_ticks) % (1 << tsbits), ord=vts + k * fps_ticks, nals=nals, key=key, params=list(ps)))
+        if bf:
+            # decoding order I P B B P B B ...: the frames stay in stream order, "ts" becomes the presentation time
+            # (one frame period behind the decoding time so that PTS >= DTS), "dts" the decoding time
+            fr = es["video"]
+            k = 0
+            while k < len(fr):
+                disp = [k]
+                if not fr[k]["key"] and k + 2 < len(fr) and not fr[k + 1]["key"] and not fr[k + 2]["key"]:
+                    disp = [k + 2, k, k + 1]                # P B B shown as B B P
+                for j, dk in enumerate(disp):
+                    f = fr[k + j]
+                    f["dts"] = f["ts"]
+                    f["ts"] = (vts + (dk + 1) * fps_ticks) % (1 << tsbits)
+                k += len(disp)
     if acodec != "none":
         if acodec == "aac":
             sfi = AAC_RATES.index(arate)
@@ -137,7 +165,7 @@ def make_es(rng, vcodec, acodec, arate, nv, gop, sizes, aud, inband, sdp_params,
                 n = rng.choice([5, 6, 7, 23, 60] if "smallaac" in extras else [5, 6, 7, 23, 180, 371] + ([1, 2, 4] if "tinyaac" in extras else []) + ([1500] if "bigaac" in extras else []))
             else:
                 n = per if acodec != "opus" else rng.choice([3, 40, 160])
-            es["audio"].append(dict(ts=(ats + k * per) % (1 << 32), data=bytes(rng.randrange(256) for _ in range(n))))
+            es["audio"].append(dict(ts=(ats + k * per) % (1 << 32), ord=ats + k * per, data=bytes(rng.randrange(256) for _ in range(n))))
     return es
 
 
@@ -234,7 +262,30 @@ def perturb(rng, idxs, window, dup):
     return arr
 
 
-def rtsp_arrivals(rng, es, vmode, amode, maxp, reorder, dup, seq_wrap, ssrc_v=0x11111111, ssrc_a=0x22222222, apt=None, vpt=None):
+PADS = [1, 2, 3, 4, 7, 8, 255, 16, 5, 128, 254, 12]
+EXTS = [None, (0xbede, b""), (0xbede, b"\x10\xaa\x00\x00"), (0x1000, bytes(range(12))), None, (0xabac, b"\x00\x00\x00\x01\x00\x00\x01\x65")]
+CSRCS = [0, 1, 2, 15, 0, 7, 3]
+
+
+def rtp_variant(rng, hv, k, marker):
+    """RFC 3550 5.1 header variants of packet number k: padding 1..255 octets (the last one is the count), header extension,
+    1..15 CSRC identifiers, marker on / off.  hv: 0 = plain, 1 = random mix, 2 = every packet padded, extension and CSRC cycling"""
+    if hv == 0:
+        return dict(marker=marker)
+    if hv == 1:
+        pad = rng.choice([0, 0, rng.choice(PADS), rng.randrange(1, 256)])
+        ext = rng.choice(EXTS + [None, None])
+        cc = rng.choice([0, 0, 0, rng.randrange(1, 16)])
+        mk = rng.choice([marker, marker, 0, 1])
+    else:
+        pad = PADS[k % len(PADS)]
+        ext = EXTS[k % len(EXTS)]
+        cc = CSRCS[k % len(CSRCS)]
+        mk = (k // 2) % 2
+    return dict(marker=mk, pad=pad, ext=ext, csrc=tuple(0xc0000000 + 0x01010101 * i for i in range(cc)))
+
+
+def rtsp_arrivals(rng, es, vmode, amode, maxp, reorder, dup, seq_wrap, ssrc_v=0x11111111, ssrc_a=0x22222222, apt=None, vpt=None, hv=0):
     """interleaved (channel, packet) list ordered by media time, each track perturbed inside its own window"""
     apt = {"aac": 97, "pcma": 8, "pcmu": 0, "opus": 101, "none": 0}[es["acodec"]] if apt is None else apt
     vpt = {"h264": 96, "h265": 98, "none": 0}[es["vcodec"]] if vpt is None else vpt
@@ -245,7 +296,7 @@ def rtsp_arrivals(rng, es, vmode, amode, maxp, reorder, dup, seq_wrap, ssrc_v=0x
         first_frame_pkts = 0
         for k, (fr, pls) in enumerate(zip(es["video"], rtp_video_packets(rng, es, vmode, maxp))):
             for j, p in enumerate(pls):
-                pk.append((fr["ts"] / es["vrate"], 2, c13.rtp(vpt, seq, fr["ts"], ssrc_v, p, marker=int(j == len(pls) - 1))))
+                pk.append((fr["ord"] / es["vrate"], 2, c13.rtp(vpt, seq, fr["ts"], ssrc_v, p, **rtp_variant(rng, hv, len(pk), int(j == len(pls) - 1)))))
                 seq += 1
             if k == 0:
                 first_frame_pkts = len(pk)
@@ -256,7 +307,7 @@ def rtsp_arrivals(rng, es, vmode, amode, maxp, reorder, dup, seq_wrap, ssrc_v=0x
         first = 0
         for k, (ts, pls, _) in enumerate(rtp_audio_packets(rng, es, amode, maxp)):
             for j, p in enumerate(pls):
-                pk.append((ts / es["arate"], 0, c13.rtp(apt, seq, ts, ssrc_a, p, marker=int(j == len(pls) - 1))))
+                pk.append((ts / es["arate"], 0, c13.rtp(apt, seq, ts, ssrc_a, p, **rtp_variant(rng, hv, len(pk) + 5, int(j == len(pls) - 1)))))
                 seq += 1
             if k == 0:
                 first = len(pk)
@@ -288,13 +339,13 @@ def adts_frame(es, raw):
                                        original=0, home=0, cp_bit=0, cp_start=0, frame_length=len(raw) + 7, fullness=0x7ff, blocks=0)) + raw
 
 
-def ps_stream(rng, es, pes_max, pts_mode, mtu, hdr_every_key=True, stuffing=0):
+def ps_stream(rng, es, pes_max, pts_mode, mtu, hdr_every_key=True, stuffing=0, hv=0):
     """PS packs for the frames of `es` in media-time order, split into RTP datagrams.
     pts_mode: first (PTS on the first PES of a frame only) | all | none (no PTS at all: the rtp timestamp separates frames)"""
     hevc = es["hevc"]
     items = []
     for fr in es["video"]:
-        items.append((fr["ts"] / es["vrate"], 0, "v", fr))
+        items.append((fr.get("ord", fr["ts"]) / es["vrate"], 0, "v", fr))     # stream order = decoding order
     for fr in es["audio"]:
         items.append((fr["ts"] / es["arate"], 1, "a", fr))
     items.sort(key=lambda x: (x[0], x[1]))
@@ -309,6 +360,7 @@ def ps_stream(rng, es, pes_max, pts_mode, mtu, hdr_every_key=True, stuffing=0):
     first = True
     for _, _, kind, fr in items:
         pts90 = fr["ts"] * 90000 // (es["vrate"] if kind == "v" else es["arate"])
+        dts90 = fr["dts"] * 90000 // es["vrate"] if "dts" in fr else None
         data = b""
         if kind == "v":
             data += c13.ps_pack_header(stuffing=stuffing)
@@ -325,11 +377,11 @@ def ps_stream(rng, es, pes_max, pts_mode, mtu, hdr_every_key=True, stuffing=0):
         chunks = [payload[i:i + pes_max] for i in range(0, len(payload), pes_max)] or [b""]
         for i, c in enumerate(chunks):
             with_pts = pts_mode == "all" or (pts_mode == "first" and i == 0)
-            data += c13.ps_pes(sid, c, pts=pts90 if with_pts else None)
-        rtp_ts = pts90 & 0xffffffff
+            data += c13.ps_pes(sid, c, pts=pts90 if with_pts else None, dts=dts90 if with_pts else None)
+        rtp_ts = (pts90 if dts90 is None else dts90) & 0xffffffff
         parts = [data[i:i + mtu] for i in range(0, len(data), mtu)]
         for i, c in enumerate(parts):
-            pkts.append(c13.rtp(96, seq, rtp_ts, 0x0badcafe, c, marker=int(i == len(parts) - 1)))
+            pkts.append(c13.rtp(96, seq, rtp_ts, 0x0badcafe, c, **rtp_variant(rng, hv, len(pkts), int(i == len(parts) - 1))))
             seq += 1
     return pkts
 
@@ -623,7 +675,8 @@ def es_of_spec(d, rng):
     chg = int(d["chg"]) if d.get("chg", "") not in ("", "-1") else None
     return make_es(rng, d["v"], d["a"], int(d.get("ar", 8000)), int(d.get("nv", 8)), int(d.get("gop", 4)), SIZES[d.get("sz", "s")],
                    d.get("aud", "0") == "1", d.get("inband", "1") == "1", d.get("sdp", "0") == "1", ex, change_at=chg,
-                   na=int(d["na"]) if d.get("na") else None)
+                   na=int(d["na"]) if d.get("na") else None, bf=d.get("bf", "0") == "1",
+                   vts0=((1 << 33) - int(d["w33"]) * 3600 - 77) if d.get("w33") else None, tsbits=33 if d.get("w33") else 32)
 
 
 def nil_or(b):
@@ -637,7 +690,7 @@ def build(d):
     op = d["op"]
     if op in ("rtsp", "e2e_rtsp"):
         arr = rtsp_arrivals(rng, es, d.get("vm", "single"), d.get("am", "one"), int(d.get("maxp", 1200)), d.get("ro", "0") == "1",
-                            d.get("dup", "0") == "1", d.get("wrap", "0") == "1")
+                            d.get("dup", "0") == "1", d.get("wrap", "0") == "1", hv=int(d.get("hv", 0)))
         sp = es["sdp_params"]
         hevc = es["hevc"]
         vps = sp[0] if (sp and hevc) else None
@@ -655,7 +708,7 @@ def build(d):
             es["sc"] = b"\x00\x00\x01"
         elif d.get("sc") == "a5":
             es["sc"] = b"\x00\x00\x00\x00\x01"
-        pk = ps_stream(rng, es, int(d.get("pes", 65000)), d.get("pts", "first"), int(d.get("mtu", 1400)), stuffing=int(d.get("stuff", 0)))
+        pk = ps_stream(rng, es, int(d.get("pes", 65000)), d.get("pts", "first"), int(d.get("mtu", 1400)), stuffing=int(d.get("stuff", 0)), hv=int(d.get("hv", 0)))
         return "c07.%s %s %s %s" % (op, d.get("maxlist", "1024"), ",".join(hex_tok(p) for p in pk) or "-", spec_tok(d)), es
     if op in ("cust", "e2e_cust"):
         vf, af = d.get("vf", "avcc"), d.get("af", "raw")
@@ -1089,6 +1142,40 @@ def grid(rng, tier):
             out.append(S(op="ps", v=v, a="none", pes=40, pts="all", mtu=70, sz="x", nv=5, gop=2, inband=1, sc=sc))
         for mtu in (15, 16, 17, 18, 19, 21):
             out.append(S(op="ps", v=v, a="pcma", ar=8000, pes=500, pts="first", mtu=mtu, sz="s", nv=4, gop=2, inband=1, stuff=rng.choice([1, 3, 5, 7])))
+    # --- RFC 3550 header variants on every ingest class: padding (1..255 octets), header extension, CSRC list, marker on / off
+    # (missed seed C07r4-1: padding octets appended to NAL units / fragments / the sequence header)
+    for v in ("h264", "h265"):
+        for vm, sz, maxp in (("single", "s", 1200), ("aggr", "s", 1200), ("fu", "m", 500), ("mix", "x", 100)):
+            for hv in (1, 2):
+                out.append(S(op="rtsp", v=v, a="none", vm=vm, sz=sz, maxp=maxp, nv=7, gop=3, aud=pick(2), inband=1, sdp=0, filt=1, rot=1, hv=hv,
+                             ex=rng.choice(["", "sei", "slices"]), ro=pick(2), wrap=pick(2)))
+            out.append(S(op="rtsp", v=v, a="aac", ar=rng.choice([44100, 48000, 16000]), am=rng.choice(["one", "multi", "multi3"]), vm=vm, sz=sz, maxp=maxp,
+                         nv=7, gop=3, inband=1, sdp=pick(2), filt=1, rot=1, hv=2, ro=1, dup=pick(2)))
+    for hv in (1, 2):
+        for a, ar, am, ex, maxp in (("aac", 44100, "one", "", 1200), ("aac", 48000, "multi3", "smallaac", 1200), ("aac", 22050, "multi", "bigaac", 400),
+                                    ("aac", 8000, "one", "bigaac", 100), ("pcma", 8000, "one", "", 1200), ("pcmu", 8000, "one", "", 1200), ("opus", 48000, "one", "", 1200)):
+            out.append(S(op="rtsp", v="none", a=a, ar=ar, am=am, ex=ex, maxp=maxp, na=12, filt=1, rot=1, hv=hv))
+        for v in ("h264", "h265"):
+            out.append(S(op="ps", v=v, a=rng.choice(["aac", "pcma", "none"]), ar=8000, pes=rng.choice([200, 65000]), pts="first", mtu=rng.choice([90, 1400]),
+                         sz="m", nv=5, gop=2, inband=1, hv=hv))
+    # --- HEVC NAL headers with nuh_layer_id 0 / 1 / 31 / 32 / 63 and temporal ids 1..7 in single, AP and FU packets
+    # (missed seed C12r4-2: the FU reassembly dropped the top bit of the layer id)
+    for vm, sz, maxp in (("single", "s", 1200), ("aggr", "s", 1200), ("fu", "m", 500), ("fu", "l", 1200), ("mix", "x", 100)):
+        for rep in range(2):
+            out.append(S(op="rtsp", v="h265", a="none", vm=vm, sz=sz, maxp=maxp, nv=8, gop=4, aud=rep, inband=1, sdp=0, filt=1, rot=1,
+                         ex="layers+sei+slices" if rep else "layers", ro=rep))
+    for vm, sz, maxp in (("single", "s", 1200), ("aggr", "s", 1200), ("fu", "m", 500), ("mix", "x", 100)):
+        out.append(S(op="rtsp", v="h264", a="none", vm=vm, sz=sz, maxp=maxp, nv=8, gop=4, inband=1, sdp=0, filt=1, rot=1, ex="fbit+slices"))
+    out.append(S(op="ps", v="h265", a="none", pes=500, pts="first", mtu=1400, sz="m", nv=6, gop=3, inband=1, ex="layers+sei"))
+    out.append(S(op="cust", v="h265", a="none", vf="annexb", af="raw", sc="a4", sz="m", nv=6, gop=3, inband=1, ex="layers+slices"))
+    out.append(S(op="cust", v="h265", a="none", vf="avcc", af="raw", sc="a4", sz="s", nv=6, gop=3, inband=1, ex="layers+filler"))
+    # --- GB28181 with B frames (PES with PTS and DTS, stream in decoding order: the PTS goes down between consecutive frames),
+    # the same PTS on every PES packet of a frame, and the 33-bit PTS wrap (missed seed C07r4-2: frames delimited by 'pts > previous')
+    for v in ("h264", "h265"):
+        for pes, pts, mtu in ((65000, "first", 1400), (200, "all", 1400), (100, "all", 60), (300, "first", 500)):
+            out.append(S(op="ps", v=v, a=rng.choice(["none", "aac", "pcma"]), ar=8000, pes=pes, pts=pts, mtu=mtu, sz="m", nv=11, gop=rng.choice([4, 7, 11]), inband=1, bf=1))
+            out.append(S(op="ps", v=v, a="none", pes=pes, pts=pts, mtu=mtu, sz="s", nv=7, gop=3, inband=1, w33=rng.choice([1, 2, 3])))
+        out.append(S(op="ps", v=v, a="none", pes=65000, pts="first", mtu=1400, sz="s", nv=10, gop=10, inband=1, bf=1, w33=4))
     # --- customize
     for v in ("h264", "h265", "none"):
         for a, ar in (("aac", 44100), ("aac", 8000), ("pcma", 8000), ("pcmu", 8000), ("opus", 48000), ("none", 8000)):
